@@ -29,6 +29,7 @@ func checkC18(c *Ctx) {
 
 	c.Rule("C18/R8", "collected keys are sorted by a total order on the keys themselves: every slice of map keys gathered in a map range is sorted by a standard value sort, or by a comparator whose every comparison is between the elements' own components or their String/StringValues renderings (nothing lossy such as a normalised date, nothing stateful such as a projection's observation order) and which, for struct keys, compares every field")
 	c.Rule("C18/R9", "a summary is a function of its point's samples: every table in benchseries that remembers computed results is keyed by every input of the remembered computation, verbatim (a product of hashes is not the pair of samples)")
+	c.Rule("C18/R12", "per-table collections are per table: no local map made before a loop is filled inside the loop and consumed whole (ranged, measured, handed on) inside the same loop")
 	c.Rule("C18/R11", "Builder.Add files each fact under its own role: it ranges over the very slice ProjectValues returned, indexes result.Values with that loop's counter, nothing writes through the slice of unit keys; and a trial's baseline hash is stored only where the result's compare value equals the builder's denominator value")
 	c.Rule("C18/R10", "a point's place on the series axis is that of its own numerator hash: in the loop over a trial's numerator hashes the series stamp that is normalised is looked up under that hash (not taken once per trial or per builder)")
 	c.Rule("C18/R7", "no 0/0 in the bootstrap: every division by a resampled median in benchseries is reached only after that median was tested non-zero (dividing first and repairing infinities leaves NaN for 0/0, which then sorts anywhere and breaks low <= centre <= high)")
@@ -70,6 +71,7 @@ func checkC18(c *Ctx) {
 	c18Policy(c, p)
 	c18ZeroDen(c, p)
 	c18Aligned(c, p)
+	c18PerTable(c, p)
 }
 
 // sortsParam: callee sorts parameter k on every return, with no element store afterwards.
@@ -1337,4 +1339,28 @@ func c18Aligned(c *Ctx, p *Prog) {
 		c.Bad(R, fmt.Sprintf("Add:unit-keys-rewritten#%d", i+1), p.pos(in.Pos()), "Builder.Add "+what[i]+" the slice of per-value unit keys: its i-th element no longer belongs to result.Values[i]")
 	}
 	c.Floor(R, "reads of result.Values in Builder.Add", n, 1)
+}
+
+// c18PerTable (C18/R12): what is collected for one table stays with that table: no function of benchseries fills, inside
+// a loop, a local map made before the loop and then consumes it whole inside the same loop (see sharedAccumulators).
+func c18PerTable(c *Ctx, p *Prog) {
+	const R = "C18/R12"
+	n := 0
+	for _, fn := range p.Funcs("benchseries") {
+		for _, sa := range sharedAccumulators(fn) {
+			n++
+			c.Bad(R, fmt.Sprintf("%s:shared-accumulator#%d", fnName(fn), n), p.pos(sa.Use.Pos()), "the map made at "+p.pos(sa.Make.Pos())+" is created once, filled inside the loop and consumed as a whole inside the same loop: the series (or benchmarks) collected for one unit's table are still there for the next, so later tables get series points that have no comparison, no hash pair and an empty summary row")
+		}
+	}
+	c.OK(R, "per-table-accumulators", "", "no accumulator is shared between the tables of a build")
+	ctl := mustLoad(c, loadOpts{dir: c.HomeDir + "/checker"}, "./testdata/lookbehind")
+	nCtl := 0
+	for _, fn := range ctl.Funcs("perfcheck/testdata/lookbehind") {
+		nCtl += len(sharedAccumulators(fn))
+	}
+	if nCtl == 0 {
+		c.Undecided(R, "positive-control", "", "the shared-accumulator matcher no longer recognises its own positive example")
+	} else {
+		c.OK(R, "positive-control", "checker/testdata/lookbehind/lb.go", "matcher fires on the stored set hoisted out of its loop")
+	}
 }
